@@ -789,6 +789,54 @@ def _loop_to_generators(loop: ast.For, acc: str):
     return gens, elt
 
 
+def fuse_accumulators(fn):
+    """t = <fresh list> ; [if c:] t.append(e) ... ; acc += t   ->   acc += <fresh list> ; [if c:] acc.append(e) ...
+    when t is used for nothing else and acc is not touched in between: the elements reach acc in the
+    same order."""
+    for owner, f, stmts in _blocks(fn):
+        for j, last in enumerate(stmts):
+            t = acc = None
+            if isinstance(last, ast.AugAssign) and isinstance(last.op, ast.Add) and isinstance(last.target, ast.Name) and isinstance(last.value, ast.Name):
+                acc, t = last.target.id, last.value.id
+            elif isinstance(last, ast.Expr) and isinstance(last.value, ast.Call) and isinstance(last.value.func, ast.Attribute) and last.value.func.attr == "extend" and isinstance(last.value.func.value, ast.Name) and len(last.value.args) == 1 and isinstance(last.value.args[0], ast.Name):
+                acc, t = last.value.func.value.id, last.value.args[0].id
+            if t is None or t == acc:
+                continue
+            # the definition of t in the same block
+            i = next((k for k in range(j - 1, -1, -1) if isinstance(stmts[k], ast.Assign) and len(stmts[k].targets) == 1 and isinstance(stmts[k].targets[0], ast.Name) and stmts[k].targets[0].id == t), None)
+            if i is None or not _is_list_expr(stmts[i].value, set()) or _impure(stmts[i].value):
+                continue
+            # t is bound once and used only between i and j, only as receiver of append / extend
+            all_names = [n for n in _walk_no_nested(fn) if isinstance(n, ast.Name) and n.id == t]
+            inside = [n for st in stmts[i:j + 1] for n in [st] + list(_walk_no_nested(st)) if isinstance(n, ast.Name) and n.id == t]
+            if len(all_names) != len(inside):
+                continue
+            ok = True
+            recv = 0
+            for st in stmts[i + 1:j]:
+                for n in [st] + list(_walk_no_nested(st)):
+                    if isinstance(n, ast.Name) and n.id == acc:
+                        ok = False
+                    if isinstance(n, (ast.For, ast.While)):
+                        ok = False
+                    if isinstance(n, ast.Call) and isinstance(n.func, ast.Attribute) and isinstance(n.func.value, ast.Name) and n.func.value.id == t and n.func.attr in ("append", "extend"):
+                        recv += 1
+            if acc in _names_loaded(stmts[i].value):
+                ok = False
+            uses_between = sum(1 for st in stmts[i + 1:j] for n in [st] + list(_walk_no_nested(st)) if isinstance(n, ast.Name) and n.id == t)
+            if not ok or uses_between != recv:
+                continue
+            for st in stmts[i + 1:j]:
+                for n in [st] + list(_walk_no_nested(st)):
+                    if isinstance(n, ast.Name) and n.id == t:
+                        n.id = acc
+            stmts[i] = ast.AugAssign(target=ast.Name(id=acc, ctx=ast.Store()), op=ast.Add(), value=stmts[i].value)
+            del stmts[j]
+            ast.fix_missing_locations(fn)
+            return fuse_accumulators(fn)
+    return fn
+
+
 def loops_to_comprehensions(fn):
     changed = True
     rounds = 0
@@ -2150,6 +2198,7 @@ def canon(fn, table: Optional[HelperTable] = None):
     for _ in range(6):
         fn = control_flow(fn)
         fn = loops_to_comprehensions(fn)
+        fn = fuse_accumulators(fn)
         fn = expressions(fn)
         fn = drop_unused(fn)
         fn = split_variables(fn)
